@@ -606,6 +606,18 @@ func (w *world) genOp(c *cClient, kind string) *opSpec {
 		if w.pct(w.prof.parkPct, "park") {
 			op.Park = pick(w, "parkAt", []string{parkOpenBefore, parkOpenAfter, parkOpenAfter})
 		}
+		if w.pct(8, "otherClaim") {
+			// Reclaim-type and delegation claims.
+			op.Claim = pick(w, "claim", []string{"previous", "previous", "previous", "previous_deleg", "delegate_cur", "delegate_prev"})
+			op.Park = ""
+			if len(o.opens) > 0 && w.pct(80, "ownOpen") {
+				co := pick(w, "reclaim", o.opens)
+				op.FH, op.Name = co.fh, co.name
+			} else if fh := w.otherFH(c, ""); fh != "" && w.pct(70, "anyFile") {
+				op.FH = fh
+			}
+			op.Stateid = sidAnonymous
+		}
 		if dev {
 			switch d := pick(w, "dev", []string{"seq_future", "seq_old", "cid", "fh_none", "fh_file", "fh_root_by_handle", "name_empty", "name_dotdot", "access_invalid", "deny_read", "deny_invalid"}); d {
 			case "seq_future":
